@@ -116,12 +116,15 @@ func (s *GRPCServer) Init() error {
 // Stop calls Stop on the underlying grpc.Server and Close on the underlying
 // grpc.Broker if present.
 func (s *GRPCServer) Stop() {
-	s.server.Stop()
-
+	// Close the broker first: that closes the listeners of brokered servers
+	// and removes their Unix socket files. Once the server below is stopped,
+	// Serve returns and the plugin process may exit at any moment.
 	if s.broker != nil {
 		s.broker.Close()
 		s.broker = nil
 	}
+
+	s.server.Stop()
 }
 
 // GracefulStop calls GracefulStop on the underlying grpc.Server and Close on
